@@ -59,6 +59,8 @@ type c18Case struct {
 	// loader part
 	Module string `json:"module,omitempty"`
 	Import string `json:"import,omitempty"`
+	// stacked part: a second ChrootFs opened on top of the project root's (template / output / transform roots)
+	Outer string `json:"outer,omitempty"`
 }
 
 func (c18) Bounds(tier string) map[string]interface{} {
@@ -77,6 +79,15 @@ func (c18) Cases(tier string, emit func(string, interface{})) {
 	for _, r := range c18Roots {
 		for _, op := range c18Ops {
 			emit("chroot", c18Case{Root: r, Op: op, MaxSeg: n})
+		}
+	}
+	// stacked roots: a second wrapper with each outer root spelling on top of the project root's wrapper; whatever
+	// the outer root and the path, nothing outside the PROJECT root may be reached
+	for _, r := range []string{"/r", "/r/s"} {
+		for _, outer := range []string{"t", "/t", ".", "..", "../t", "a/../../../s", "t/..", "/..", "../../r", "./../r/s"} {
+			for _, op := range c18Ops {
+				emit("stacked", c18Case{Root: r, Outer: outer, Op: op, MaxSeg: 3})
+			}
 		}
 	}
 	// loader part: module spelling x import spelling x root
@@ -233,7 +244,10 @@ func (c18) Run(c core.Case) core.Outcome {
 		return c18Loader(cs)
 	}
 	rec := &recFs{Fs: nullFs{}}
-	fs := syslutil.NewChrootFs(rec, cs.Root)
+	var fs afero.Fs = syslutil.NewChrootFs(rec, cs.Root)
+	if cs.Outer != "" {
+		fs = syslutil.NewChrootFs(fs, cs.Outer)
+	}
 	var out core.Outcome
 	out.Class = "ok"
 	states := map[string]bool{}
@@ -266,11 +280,15 @@ func (c18) Run(c core.Case) core.Outcome {
 						if !underRoot(cs.Root, rp) && out.Violation == "" {
 							out.Violation = fmt.Sprintf("root %q: %s(%q) reached the underlying filesystem as %s%q, outside the root", cs.Root, cs.Op, p, call.Op, call.Paths)
 							out.Sig = "escape|" + cs.Op
+							if cs.Outer != "" {
+								out.Violation = fmt.Sprintf("project root %q with a second root %q opened on top: %s(%q) reached the underlying filesystem as %s%q, outside the project root", cs.Root, cs.Outer, cs.Op, p, call.Op, call.Paths)
+								out.Sig = "stacked-escape|" + cs.Op
+							}
 						}
 					}
 				}
 				// liveness for never-leaving spellings
-				if okRef && out.Violation == "" {
+				if okRef && out.Violation == "" && cs.Outer == "" {
 					want := expectPath(cs.Root, canon)
 					good := false
 					for _, call := range rec.calls {
@@ -332,7 +350,7 @@ func (c18) Run(c core.Case) core.Outcome {
 	out.States = len(states)
 	out.Traces = out.Transitions
 	if nEsc > 0 && nIn > 0 {
-		out.NonTrivial = cs.Root + "|" + cs.Op
+		out.NonTrivial = cs.Root + "|" + cs.Outer + "|" + cs.Op
 	}
 	out.Extra = map[string]int{"paths_escaping": nEsc, "paths_inroot": nIn}
 	return out
